@@ -181,7 +181,9 @@ pub fn gen_claims(r: &mut Rng, cfg: &TreeCfg, now: u64) -> Value {
     let exp = now + 3600 + r.next() % (FAR_FUTURE - now - 3600);
     let mut std: Vec<(String, Value)> = vec![("iss".into(), json!(iss)), ("exp".into(), json!(exp))];
     if r.chance(1, 2) {
-        std.push(("iat".into(), json!(now - (r.next() % 100_000))));
+        // iat is the issuer's own statement: usually in the past, now and then in the future or beyond exp (nothing depends on it)
+        let iat = match r.below(16) { 0 => exp + 1 + r.next() % 1000, 1 => exp, 2 => now + 300 + r.next() % 100_000, _ => now - (r.next() % 100_000) };
+        std.push(("iat".into(), json!(iat)));
     }
     if r.chance(1, 3) {
         std.push(("sub".into(), json!(gen_string(r, cfg.plain))));
@@ -673,6 +675,15 @@ pub fn notable_claims(now: u64) -> Vec<(Value, Vec<String>)> {
         (base(json!({"n1": 1, "n2": 1.0, "n3": 1e0, "n4": "1", "b1": true, "b2": "true", "z1": null, "z2": "null", "e1": [], "e2": {}, "e3": "", "m0": -0.0, "m1": 0, "big": 18446744073709551615u64, "neg": -9223372036854775808i64,
                      "list": [1, 1.0, "1", true, "true", null, "null", [], {}, "", 0, -0.0, [1], [1.0]]})),
          vec!["$.n2".into(), "$.n4".into(), "$.b2".into(), "$.z1".into(), "$.e2".into(), "$.list[1]".into(), "$.list[5]".into(), "$.list[9]".into(), "$.list.[13]".into()]),
+        // array elements addressed with an index in some other spelling (in range as a NUMBER, but not the text the walk compares):
+        // such a path names no claim
+        (base(json!({"list": ["a", "b", "c", {"d": 1}], "grid": [[["x", "y"], ["z"]], [["w"]]], "n": {"list": [1, 2]}})), vec!["$.list[01]".into()]),
+        (base(json!({"list": ["a", "b", "c", {"d": 1}], "grid": [[["x", "y"], ["z"]], [["w"]]], "n": {"list": [1, 2]}})), vec!["$.list[+1]".into(), "$.list.[002]".into(), "$.n.list[1 ]".into(), "$.list[ 1]".into(), "$.list[1.0]".into(), "$.list[3].d".into()]),
+        (base(json!({"list": ["a", "b", "c", {"d": 1}], "grid": [[["x", "y"], ["z"]], [["w"]]], "n": {"list": [1, 2]}})), vec!["$.list[03].d".into(), "$.grid[0][00][1]".into(), "$.list[\u{661}]".into(), "$.list[0x1]".into()]),
+        // an element three arrays deep, hidden on its own (neither enclosing element is)
+        (base(json!({"list": ["a", "b", "c", {"d": 1}], "grid": [[["x", "y"], ["z"]], [["w"]]], "n": {"list": [1, 2]}})), vec!["$.grid[0][0][1]".into()]),
+        (base(json!({"list": ["a", "b", "c", {"d": 1}], "grid": [[["x", "y"], ["z"]], [["w"]]], "n": {"list": [1, 2]}})), vec!["$.grid[1][0][0]".into(), "$.grid[0][1]".into(), "$.grid.[0].[0].[0]".into()]),
+        (base(json!({"cube": [[[[1, 2], [3]], [[4]]], [[[5, {"k": [6, 7]}]]]], "rows": [[1, 2], [3, 4], 5]})), vec!["$.cube[0][0][0][1]".into(), "$.cube[1][0][0][1].k[0]".into(), "$.rows[0][1]".into(), "$.rows[1]".into()]),
         // names that begin like the reserved ones
         (base(json!({"_sdk_version": {"major": 1}, "....": {"x": [1, 2]}, "...and more": 3, "nested": {"_sd_": {"_sdx": 1}, "... ": [true]}})), vec!["$._sdk_version.major".into(), "$......x[0]".into(), "$.nested._sd_._sdx".into()]),
     ]
@@ -693,3 +704,24 @@ pub fn multibyte_fillers() -> Vec<String> {
     }
     out
 }
+
+/// the same selection with the members of every object in another order (reversed, or shuffled)
+pub fn reorder_members(r: &mut Rng, v: &Value, reverse: bool) -> Value {
+    match v {
+        Value::Object(m) => {
+            let mut items: Vec<(String, Value)> = m.iter().map(|(k, x)| (k.clone(), reorder_members(r, x, reverse))).collect();
+            if reverse {
+                items.reverse();
+            } else {
+                for i in (1..items.len()).rev() {
+                    let j = r.below(i + 1);
+                    items.swap(i, j);
+                }
+            }
+            Value::Object(items.into_iter().collect())
+        }
+        Value::Array(a) => Value::Array(a.iter().map(|x| reorder_members(r, x, reverse)).collect()),
+        _ => v.clone(),
+    }
+}
+
